@@ -6,7 +6,7 @@ WRAP = ['pthread_cond_wait', 'pthread_cond_signal']
 
 RULE = ('histories over one file-backed store in a private directory: set / set-multiple / remove / clear / get / '
         'save+synchronise / save interrupted after k system calls (every k from 0 to all) followed by a process '
-        'restart / bursts of 2-4 saves (one or two files) with the saver thread held inside the k-th system call of the first / save+synchronise with n spurious wake-ups of pthread_cond_wait and a slow disk / save whose writes fail with ENOSPC from the k-th on / load / restart / repeated Load() and LoadFromFile() on one long-lived object between unsaved edits and same-length saves / hand-written settings files / universe appear-rename-teardown / device '
+        'restart / bursts of 2-4 saves (one or two files) with the saver thread held inside the k-th system call of the first / save+synchronise with n spurious wake-ups of pthread_cond_wait and a slow disk / save whose writes fail with ENOSPC from the k-th on / load / restart / repeated Load() and LoadFromFile() on one long-lived object between unsaved edits and same-length saves / hand-written settings files / typed setters (unsigned, int, bool) and GetValueAsBool / several devices released and re-registered in turn / universe appear-rename-teardown / device '
         'register-patch-priority-unregister-shutdown; keys and values aimed at the separators (=, #, blanks, empty, '
         'prefixes of each other, bytes above 127), universe ids at 0, 2^31-1, 2^31, 2^32-1, priorities at 0, 200, '
         '201, 255; a minority of inputs outside the side conditions (untrimmed, key with =, embedded newline). '
@@ -29,7 +29,10 @@ TRUSTED = ['modelled rather than verified: Preferences.cpp MemoryPreferences::{S
            'StringUtils.cpp StringTrim (StringSplit only for the pre-fix loader); UniverseStore::{Save,Restore}UniverseSettings '
            '(name, merge mode; not the rdm discovery interval); DeviceManager::{SavePortPatchings,SavePortPriority,'
            'RestorePortPriority,RestorePortSettings}; PortManager::{SetPriorityStatic,SetPriorityInherit}; '
-           'StringToInt(uint8/unsigned) only for values that start with a digit',
+           'StringToInt(uint8/unsigned) only for values that start with a digit; MemoryPreferences::SetValue(unsigned/int), '
+           'SetMultipleValue(unsigned), SetValueAsBool, GetValueAsBool; numeric constants and the string literals of keys, '
+           'lines and names are regenerated from /repo on every run (GenNum.v from headers, GenStr.v from the source text) '
+           'and pinned by c18_consts',
            'std::multimap iteration order (ascending keys, insertion order among equal keys) and std::string operator< '
            'are modelled as a sorted list with insertion at the upper bound',
            'libstdc++ ofstream: one write per std::endl (observed by the interposer; the crash theorem itself '
@@ -39,6 +42,72 @@ TRUSTED = ['modelled rather than verified: Preferences.cpp MemoryPreferences::{S
            'the saver-thread machine (SyncModel.v: SelectServer::Execute / DrainAndExecute / RunCallbacks as a FIFO with batch swap, '
            'Synchronize, CompleteSynchronization) is hand-written and is tied to the code only behaviourally (file observed at '
            'the return of the real Synchronize under injected spurious wake-ups); it is not extracted']
+
+
+def _lit(s):
+    """C string literal body -> list of byte values"""
+    return list(s.encode('latin-1').decode('unicode_escape').encode('latin-1'))
+
+
+def gen_consts(v):
+    """Regenerates coq/GenNum.v (numeric constants, printed by a program compiled against the headers)
+    and coq/GenStr.v (the string literals the settings code builds its keys, lines and names from,
+    taken from the source text of the anchored files).  Properties.v pins the model to both."""
+    import os, re
+    cdir = os.path.join(v.VERIF, 'props', ID, 'coq')
+    ents = [('G_SOURCE_PRIORITY_MAX', 'ola::dmx::SOURCE_PRIORITY_MAX'),
+            ('G_SOURCE_PRIORITY_DEFAULT', 'ola::dmx::SOURCE_PRIORITY_DEFAULT'),
+            ('G_PRIORITY_MODE_INHERIT', 'ola::PRIORITY_MODE_INHERIT'),
+            ('G_PRIORITY_MODE_STATIC', 'ola::PRIORITY_MODE_STATIC'),
+            ('G_CAPABILITY_NONE', 'ola::CAPABILITY_NONE'), ('G_CAPABILITY_STATIC', 'ola::CAPABILITY_STATIC'),
+            ('G_CAPABILITY_FULL', 'ola::CAPABILITY_FULL'),
+            ('G_UINT8_MAX', 'UINT8_MAX'), ('G_UINT32_MAX', 'UINT32_MAX'),
+            ('G_SIZEOF_UNSIGNED_INT', 'sizeof(unsigned int)'),
+            ('G_OLA_PLUGIN_ARTNET', 'ola::OLA_PLUGIN_ARTNET')]
+    err = v.gen_consts_cpp(ID, ['ola/dmx/SourcePriorities.h', 'olad/PortConstants.h', 'ola/plugin_id.h'],
+                           ents, os.path.join(cdir, 'GenNum.v'), prelude='#define __STDC_LIMIT_MACROS\n#include <stdint.h>')
+    if err:
+        return err
+    def src(rel):
+        return open(v.repo_path(rel), encoding='latin-1').read()
+    out = []
+    def one(name, text, pattern, what):
+        found = set(re.findall(pattern, text))
+        if len(found) != 1:
+            raise ValueError('%s: expected exactly one literal for %s, found %r' % (name, what, sorted(found)))
+        out.append((name, _lit(found.pop())))
+    try:
+        dm = src('olad/plugin_api/DeviceManager.cpp')
+        one('G_s_pval', dm, r'PRIORITY_VALUE_SUFFIX\[\]\s*=\s*"([^"]*)"', 'PRIORITY_VALUE_SUFFIX')
+        one('G_s_pmode', dm, r'PRIORITY_MODE_SUFFIX\[\]\s*=\s*"([^"]*)"', 'PRIORITY_MODE_SUFFIX')
+        one('G_s_portprefs', dm, r'PORT_PREFERENCES\[\]\s*=\s*"([^"]*)"', 'PORT_PREFERENCES')
+        us = src('olad/plugin_api/UniverseStore.cpp')
+        one('G_s_uni', us, r'key = "([^"]*)" \+ oss\.str\(\) \+ "_(?:name|merge)"', 'universe key prefix')
+        one('G_s_name', us, r'key = "[^"]*" \+ oss\.str\(\) \+ "(_name)"', 'name suffix')
+        one('G_s_merge', us, r'key = "[^"]*" \+ oss\.str\(\) \+ "(_merge)"', 'merge suffix')
+        one('G_s_HTP', us, r'MERGE_HTP \? "([^"]*)" : "[^"]*"', 'HTP text (save)')
+        one('G_s_HTP_restore', us, r'value == "([^"]*)"', 'HTP text (restore)')
+        one('G_s_LTP', us, r'MERGE_HTP \? "[^"]*" : "([^"]*)"', 'LTP text')
+        one('G_s_Universe', src('olad/plugin_api/Universe.cpp'), r'universe_name_str << "([^"]*)" << universe_id', 'default name')
+        pf = src('olad/plugin_api/Preferences.cpp')
+        one('G_s_true', pf, r'BoolValidator::ENABLED\[\] = "([^"]*)"', 'BoolValidator::ENABLED')
+        one('G_s_false', pf, r'BoolValidator::DISABLED\[\] = "([^"]*)"', 'BoolValidator::DISABLED')
+        one('G_separator', pf, r'iter->first << "([^"]*)" << iter->second << std::endl', 'key/value separator')
+        one('G_tmp_suffix', pf, r'\*filename \+ "([^"]*)"', 'temporary file suffix')
+        one('G_comment_char', pf, r"line\.at\(0\) == '([^']*)'", 'comment character')
+        one('G_split_char', pf, r"line\.find\('([^']*)'\)", 'separator searched by the loader')
+        one('G_trim_chars', src('common/utils/StringUtils.cpp'), r'characters_to_trim = "([^"]*)"', 'StringTrim characters')
+    except (OSError, ValueError) as e:
+        return 'string constants could not be regenerated from the repository sources: %s' % e
+    txt = ('(* REGENERATED from the source text of the repository on every run. Do not edit. *)\n'
+           'From Coq Require Import NArith List.\nImport ListNotations.\nLocal Open Scope N_scope.\n')
+    for name, bs in out:
+        txt += 'Definition %s : list N := [%s].\n' % (name, '; '.join(str(b) for b in bs))
+    path = os.path.join(cdir, 'GenStr.v')
+    if not os.path.exists(path) or open(path).read() != txt:
+        with open(path, 'w') as f:
+            f.write(txt)
+    return None
 
 _KEYS = ['s', 'f', 'a', 'u', 'p', 'y', 'z']
 SPEC_KEYS = set('%s%d' % (k, i) for k in _KEYS for i in range(0, 300))
@@ -246,6 +315,30 @@ def gen_cases(rng, tier):
             else:
                 ops.append(rng.choice(['l', 'lf', 'G:%s' % hx(keys[0])]))
         yield ' '.join(ops)
+    # 4c. the typed entry points: SetValue(unsigned), SetValue(int), SetMultipleValue(unsigned), SetValueAsBool / GetValueAsBool
+    for i in range(50 * scale):
+        k = rkey(rng)
+        ops = fill(rng, rng.randint(0, 2))
+        for _ in range(rng.randint(1, 4)):
+            w = rng.randrange(5)
+            kk = rng.choice([k, rkey(rng)])
+            if w == 0: ops.append('I:%s:%d' % (hx(kk), rng.choice([0, 1, 9, 10, 255, 256, 2**31 - 1, 2**31, 2**32 - 1, rng.randrange(2**32)])))
+            elif w == 1: ops.append('J:%s:%d' % (hx(kk), rng.choice([0, -1, 1, -10, 2**31 - 1, -2**31, rng.randrange(-2**31, 2**31)])))
+            elif w == 2: ops.append('N:%s:%d' % (hx(kk), rng.choice([0, 7, 2**32 - 1, rng.randrange(1000)])))
+            elif w == 3: ops.append('T:%s:%d' % (hx(kk), rng.randrange(2)))
+            else: ops.append('S:%s:%s' % (hx(kk), hx(rng.choice(['true', 'false', 'True', 'true ', '1', '']))))
+            if rng.random() < 0.5: ops.append('b:%s' % hx(kk))
+        ops += ['V', 'L', 'b:%s' % hx(k), 'G:%s' % hx(k)]
+        yield ' '.join(ops)
+    # 4d. several devices / ports released and re-registered in turn (keys of one never disturb another)
+    for i in range(40 * scale):
+        devs = [rng.choice(['d1', 'd-1', 'dev-I-2', 'a']), rng.choice(['d2', 'd-1-O', '10.0.0.2', 'a-I-1'])]
+        ops = []
+        for _ in range(rng.randint(2, 4)):
+            ops.append('P:%s:%s' % (hx(rng.choice(devs)), ':'.join(port_action(rng) for _ in range(4))))
+            if rng.random() < 0.5: ops.append('L')
+        ops += ['L'] + ['P:%s:k/k/k:k/k/k:k/k/k:k/k/k' % hx(dv) for dv in devs]
+        yield ' '.join(ops)
     # 5. inputs outside the side conditions
     for i in range(150 * scale):
         ops = fill(rng, rng.randint(0, 3))
@@ -303,18 +396,18 @@ def nontrivial(payload, md):
 
 
 LEVEL_TEXT = ('Coq theorems over an executable model of the preference store, its file format, the save as a script of '
-              'system calls and the universe / port settings kept in it: save then load is the identity on every '
-              'multimap meeting the property\'s side conditions (values with = and #, empty values, multi-valued keys, '
-              'order preserved); after any prefix of the system calls of a save, for any chunking of the writes and any '
-              'previous directory contents, the file is byte-for-byte the old one or the complete new one (rename '
-              'atomicity as an explicit hypothesis); every history of set/remove/save/crash/load/restart keeps the '
-              'store loadable; universe name / merge mode and port patch (all 2^32 ids) / priority / mode written at '
-              'teardown are restored, the port settings also through the file for every key Port::UniqueId() produces; '
-              'for every schedule of the saver-thread machine (two threads, FIFO, mutex, condition variable, spurious '
+              'system calls, the saver thread and the universe / port settings kept in the store. Save then load is the '
+              'identity EXACTLY on the stores whose keys and values meet the property\'s side conditions (iff; the loader '
+              'output is always admissible; no length bound). After any prefix of the system calls of a save - any '
+              'chunking, any previous directory, also a first save and a save whose writes fail - the file is the old one '
+              'or the complete new one (rename atomicity as explicit hypothesis), lifted to whole histories from any '
+              'directory. For every schedule of the saver-thread machine (saves one system call per step, spurious '
               'wake-ups) every save issued before a Synchronize has completed when it returns and the file is the most '
-              'recent one (safety; termination of Synchronize is not proved); a save whose writes fail keeps the old '
-              'file at every crash point. An empty universe name is not restored (the code treats an empty setting as '
-              'absent) and is excluded by a guard (known finding); the rdm discovery interval restore is not modelled.')
+              'recent one (safety; one calling thread; termination not proved). Universe name / merge mode and port '
+              'patch (all 2^32 ids) / priority (static-only and full ports) / mode are restored through the file after '
+              'any sequence of teardowns of other universes / ports (key injectivity proved). Typed setters and '
+              'GetValueAsBool round-trip. An empty universe name is not restored (known finding); the rdm discovery '
+              'interval restore and PatchPort vetoes are not modelled.')
 LEVEL_NOTE = ('Trusted: Coq kernel, extraction (ExtrOcamlBasic), OCaml/C++ glue, generator coverage; model = code is '
               'validated by differential testing against the real FileBackedPreferences, FilePreferenceSaverThread, '
               'UniverseStore, DeviceManager and PortManager (ASan/UBSan build), with the directory image captured '
